@@ -62,6 +62,8 @@ def skeletons():
     bad = blk(["if X is a and Y is b then O is a", "if X is b then O is b and O is nosuchterm", "if Y is a then O is a and nosuchvariable is b"])
     bad["tolerate_rule_errors"] = True
     S_["rule-with-unloadable-consequent"] = {"inputs": ins2, "outputs": [out("O", ("Centroid", 2))], "blocks": [bad]}
+    S_["weighted-output-read-later"] = {"inputs": ins2, "outputs": [out("O", ("WeightedAverage",), CONST, None), out("P", ("Centroid", 2))],
+                                        "blocks": [blk(["if X is a and Y is a then O is a", "if X is b then O is b"]), blk(["if O is a or Y is b then P is b", "if O is b and X is a then P is a"])]}
     S_["first-activation"] = {"inputs": ins2, "outputs": [out("O", ("LargestOfMaximum", 2))],
                               "blocks": [blk(["if X is a and Y is b then O is a", "if X is b or Y is a then O is b"], ("First", 1, 0.0))]}
     return S_
@@ -80,8 +82,6 @@ def more_skeletons():
     mixed = ["if X is a and Y is b then O is a", "if X is b or Y is a then O is b", "if Y is very a then O is a with 0.5"]
     for act in (("Last", 1, 0.0), ("Highest", 2), ("Lowest", 1), ("Proportional",), ("Threshold", ">", 0.25), ("First", 2, 0.5)):
         S_[f"activation-{act[0]}"] = {"inputs": ins2, "outputs": [out("O", ("Centroid", 2))], "blocks": [blk(mixed, act)]}
-    S_["weighted-output-read-later"] = {"inputs": ins2, "outputs": [out("O", ("WeightedAverage",), CONST, None), out("P", ("Centroid", 2))],
-                                        "blocks": [blk(["if X is a and Y is a then O is a", "if X is b then O is b"]), blk(["if O is a or Y is b then P is b", "if O is b and X is a then P is a"])]}
     S_["parentheses-and-weights"] = {"inputs": ins2, "outputs": [out("O", ("SmallestOfMaximum", 2))],
                                      "blocks": [blk(["if ( X is a or Y is b ) and ( X is b or Y is a ) then O is a with 0.25", "if X is a then O is b with 0.75"])]}
     S_["three-blocks"] = {"inputs": ins2, "outputs": [out("O", ("Centroid", 2)), out("P", ("WeightedSum",), CONST, None)],
